@@ -77,6 +77,17 @@ CHECKS = {
         note="A1/A2 are assumptions of the model, monitored on every recorded execution. Keys are sampled (VERIF_SEED). Quick: spqlios-fma optim (full), nayuki-portable optim and spqlios-fma debug (reduced); thorough: 5 back-ends x 2 builds x 3 seeds. "
              "The bit-exact reduced-size algorithm (MachineC) is covered under C04/C09.",
         design="§6 C01"),
+    "C02": dict(
+        category="model_checking",
+        technique="TLC reachability fixpoint of MachineP (arbitrary gate sequences, fan-out, in-place) + TLC-generated and structured netlists executed on the real library, "
+                  "every gate event validated by TLC against MachineP with noise statistics accumulated as specification state (Trace_MachineP + TraceStats)",
+        text="The model has no depth or history variable: TLC reaches the fixpoint of all gate sequences on 3 (thorough: 4) registers and checks that every wire decrypts to the plaintext evaluation and stays admissible. "
+             "Programs are produced by TLC itself (random behaviours of the model written out by Gen_MachineP) and by structured generators (long in-place chains, ripple-carry adder + comparator fed back into itself, "
+             "multiplexer trees with heavy fan-out, random 8-register programs with re-loads incl. maximally noisy admissible inputs) and executed with real keys for both parameter sets; TLC validates every event as a MachineP "
+             "step (so every wire of every circuit is decrypted against the plaintext interpreter), and accumulates per parameter set, gate family (binary / MUX) and input class (fresh / depth >= 10 / noisy / other) n, sum e, sum e^2, max; "
+             "acceptance: sd <= bound(1+8/sqrt(2n)), |mean| <= bound/4 + 8 bound/sqrt(n), max < 3/64, class variances pairwise within 8 sigma.",
+        note="Statistical clauses are hypothesis tests with >= 8 sigma wide regions (quick: ~1500 gate outputs on spqlios-fma; thorough: five back-ends, ~10^4 outputs on the fast ones). Degradations below ~10-20 % of the bound are not detected.",
+        design="§6 C02"),
 }
 
 NOT_YET = {}
